@@ -276,6 +276,57 @@ def f_timed(rng):
     return "timed-" + scen, src, exp, 3
 
 
+def f_timed_race(rng):
+    """a timeout that expires at the very instant of the competing event: the target's last act is a long non-preemptible foreign
+    call ((sim-burn us) takes simulated time) that carries the clock past the waiter's deadline, so the scheduler invocation that
+    sees the termination / unlock / signal is also the first one that sees the deadline passed. Either outcome of the race is
+    legal; what must hold is that it is one of the two, that everybody else (sleepers with later deadlines) still wakes, and that
+    the state afterwards is consistent with the reported outcome."""
+    spin = rng.choice([0, 3, 40, 400, 3000])
+    d = rng.choice([0.05, 0.3, 1])
+    burn = int(d * 1000000 * rng.choice([1.5, 3, 20]))
+    late = [round(d * k, 3) for k in rng.sample([2, 5, 9, 30], rng.range(1, 3))]
+    early = rng.choice([[], [round(d / 7, 4)]])
+    tail = rng.choice(["", "(let lp ((j 0)) (if (< j %d) (lp (+ j 1))))" % rng.choice([1, 5, 30])])
+    scen = rng.choice(["join", "join", "lock", "cv"])
+    sleepers = "(define sl (map (lambda (x) (thread-start! (make-thread (lambda () (thread-sleep! x) x)))) '(%s)))\n" % " ".join(map(str, late + early))
+    spinx = "(let lp ((j 0)) (if (< j %d) (lp (+ j 1))))" % spin
+    if scen == "join":
+        src = sleepers + """
+(define t (thread-start! (make-thread (lambda () %s (sim-burn %d) %s 'done))))
+(define r (thread-join! t %s 'timed-out))
+(write (if (memq r '(done timed-out)) 'one-of-two r))
+(write (thread-join! t))
+(write (map thread-join! sl))
+""" % (spinx, burn, tail, d)
+        exp = "one-of-twodone(%s)" % " ".join(map(str, late + early))
+    elif scen == "lock":
+        src = sleepers + """
+(define m (make-mutex))
+(mutex-lock! m)
+(define t (thread-start! (make-thread (lambda () (let ((r (mutex-lock! m %s))) (let ((own (eq? (mutex-state m) (current-thread)))) (if r (mutex-unlock! m)) (eq? r own)))))))
+(thread-yield!)
+%s (sim-burn %d) %s
+(mutex-unlock! m)
+(write (thread-join! t))
+(write (mutex-state m))
+(write (map thread-join! sl))
+""" % (d, spinx, burn, tail)
+        exp = "#tnot-abandoned(%s)" % " ".join(map(str, late + early))
+    else:
+        src = sleepers + """
+(define m (make-mutex)) (define cv (make-condition-variable)) (define flag #f)
+(define t (thread-start! (make-thread (lambda () %s (mutex-lock! m) (set! flag #t) (sim-burn %d) %s (condition-variable-signal! cv) (mutex-unlock! m) 'signalled))))
+(mutex-lock! m)
+(define r (if flag 'seen (if (mutex-unlock! m cv %s) 'woken 'timeout)))
+(write (if (memq r '(seen woken timeout)) 'one-of-three r))
+(write (thread-join! t))
+(write (map thread-join! sl))
+""" % (spinx, burn, tail, d)
+        exp = "one-of-threesignalled(%s)" % " ".join(map(str, late + early))
+    return "timed-race-" + scen, src, exp, 3 + len(late) + len(early)
+
+
 def f_callbacks(rng):
     """threads preempted INSIDE a C->Scheme callback (sort with a Scheme comparator): known finding F1 lives here and only here"""
     t = rng.range(2, 3)
@@ -291,7 +342,7 @@ def f_callbacks(rng):
     return "callbacks", src, exp, t + 1
 
 
-FAMILIES = [(f_callbacks, 1), (f_mutex_counter, 4), (f_two_locks, 2), (f_condvar_buffer, 4), (f_fork_join, 3), (f_join_states, 2), (f_locals, 3), (f_timed, 4)]
+FAMILIES = [(f_callbacks, 1), (f_mutex_counter, 4), (f_two_locks, 2), (f_condvar_buffer, 4), (f_fork_join, 3), (f_join_states, 2), (f_locals, 3), (f_timed, 4), (f_timed_race, 3)]
 
 
 def gen_sched(rng, timed, tier="quick", index=0):
